@@ -274,7 +274,8 @@ func (p *Parser) lookupManipulatorFunc(funcName, optName string, pos token.Pos) 
 		return nil, logger.Errorf("%v: function %v cannot use for %v func", p.fset.Position(pos), funcName, optName)
 	}
 
-	if sig.Params().Len() < 2 {
+	if sig.Params().Len() < 2 || sig.Variadic() {
+		// The call is emitted with one plain argument per parameter: a variadic parameter does not fit.
 		return nil, logger.Errorf("%v: function %v cannot use for %v func", p.fset.Position(pos), funcName, optName)
 	}
 
